@@ -2,5 +2,5 @@ From Coq Require Import extraction.Extraction extraction.ExtrOcamlBasic.
 From TU Require Import Base C16_Model.
 Definition run := run_C16.
 Definition check := check_C16.
-Definition agree (inp m i : val) : bool := val_eqb m i.
+Definition agree (inp m i : val) : bool := val_eqb m i && uax29_agree inp.
 Extraction "model.ml" run check agree.
